@@ -180,7 +180,7 @@ static unsigned int check_sib_disp(struct instr *instruc, char scale,
 static int copy_index_reg(int j, const char *mem, char reg[]) {
 
   int k = 0;
-  while (((IN_RANGE(mem[j], 'a', 'x')) || (IN_RANGE(mem[j], '0', '9'))) &&
+  while (((IN_RANGE(mem[j], 'a', 'z')) || (IN_RANGE(mem[j], '0', '9'))) &&
          k < MAX_REG_STR_LEN)
     reg[k++] = mem[j++];
   AL_VERIF_IDX(3, k, MAX_REG_LEN);
